@@ -21,9 +21,9 @@ place() { # $1 = demo file
 runpat=$(grep -hoE 'func (Test[A-Za-z0-9_]+)' $(for d in $demos; do echo "$SRC/$d"; done) | awk '{print $2}' | paste -sd'|')
 pkgdir=$(place $(echo $demos | awk '{print $1}'))
 mkdir -p "$WT/$pkgdir"; for d in $demos; do cp "$SRC/$d" "$WT/$pkgdir/"; done
-( cd "$WT" && go test -vet=off -count=1 -run "$runpat" "./$pkgdir/" ) > "$WT/.clean.log" 2>&1; clean_rc=$?
+( cd "$WT" && go test ${TESTFLAGS:-} -vet=off -count=1 -run "$runpat" "./$pkgdir/" ) > "$WT/.clean.log" 2>&1; clean_rc=$?
 git -C "$WT" apply "$SRC/patch.diff" 2>/dev/null || git -C "$WT" apply -3 "$SRC/patch.diff" || { echo "$SID: patch does not apply"; exit 5; }
-( cd "$WT" && go test -vet=off -count=1 -run "$runpat" "./$pkgdir/" ) > "$WT/.mut.log" 2>&1; mut_rc=$?
+( cd "$WT" && go test ${TESTFLAGS:-} -vet=off -count=1 -run "$runpat" "./$pkgdir/" ) > "$WT/.mut.log" 2>&1; mut_rc=$?
 for d in $demos; do rm -f "$WT/$pkgdir/$d"; done
 ( cd "$WT" && go test -vet=off -count=1 ./... ) > "$WT/.suite.log" 2>&1; suite_rc=$?
 echo "$SID: demo_without_change rc=$clean_rc (want 0) demo_with_change rc=$mut_rc (want !=0) suite_with_change rc=$suite_rc (want 0) pkg=$pkgdir run=$runpat"
